@@ -400,8 +400,25 @@ var (
 func c07RaceBinary() string {
 	c07BinOnce.Do(func() {
 		bin := filepath.Join(verifRoot(), ".bin", fmt.Sprintf("vh-race.%d", os.Getpid()))
+		dir := filepath.Join(verifRoot(), "harness")
+		if repoRoot != "/repo" {
+			// background run against a snapshot of the repository: a copy of the harness whose
+			// replace directive points at the snapshot
+			dir = newWorkDir("harness-race")
+			defer os.RemoveAll(dir)
+			files, _ := filepath.Glob(filepath.Join(verifRoot(), "harness", "*.go"))
+			for _, f := range files {
+				b, _ := os.ReadFile(f)
+				must(os.WriteFile(filepath.Join(dir, filepath.Base(f)), b, 0o644))
+			}
+			gm, _ := os.ReadFile(filepath.Join(verifRoot(), "harness", "go.mod"))
+			must(os.WriteFile(filepath.Join(dir, "go.mod"), bytes.ReplaceAll(gm, []byte("=> /repo"), []byte("=> "+repoRoot)), 0o644))
+			if gs, err := os.ReadFile(filepath.Join(repoRoot, "go.sum")); err == nil {
+				must(os.WriteFile(filepath.Join(dir, "go.sum"), gs, 0o644))
+			}
+		}
 		cmd := exec.Command("go", "build", "-race", "-tags", "verif", "-o", bin, ".")
-		cmd.Dir = filepath.Join(verifRoot(), "harness")
+		cmd.Dir = dir
 		cmd.Env = append(os.Environ(), "GOFLAGS=-mod=mod", "GOPROXY=off", "GOSUMDB=off", "GOTOOLCHAIN=local", "CGO_ENABLED=1")
 		if out, err := cmd.CombinedOutput(); err != nil {
 			infra("cannot build the -race harness: %v\n%s", err, out)
